@@ -138,6 +138,15 @@ func (c06) Gen(seed uint64, tier string) json.RawMessage {
 		if r.Chance(0.2) {
 			n = r.Range(2, 4)
 		}
+		if r.Chance(0.12) {
+			// a contract transaction that really runs, followed in the same block by one from the poor account
+			// whose gas limit is below the intrinsic cost (it fails before the EVM starts)
+			blk.Txs = append(blk.Txs, node.TxSpec{K: "call", From: r.Intn(4), To: fmt.Sprintf("#%d", r.Intn(3)), Gas: 6000000, Value: "0", Salt: fmt.Sprintf("v%d", k)})
+			k++
+			blk.Txs = append(blk.Txs, node.TxSpec{K: []string{"call", "create"}[r.Intn(2)], From: 7, To: fmt.Sprintf("#%d", r.Intn(6)), Gas: uint64(r.Range(1000, 40000)), Value: "0", Prog: r.Intn(8), Salt: fmt.Sprintf("v%d", k)})
+			k++
+			n = 0
+		}
 		for j := 0; j < n; j++ {
 			blk.Txs = append(blk.Txs, c06GenTx(r, k))
 			k++
@@ -160,7 +169,11 @@ func (c06) Exec(raw json.RawMessage, st *simrt.Stats, log *simrt.Log) *simrt.Vio
 	// setup block through the chain: fund harness accounts, deploy one contract of every program kind used by calls
 	var txs []*types.Transaction
 	for i := 4; i < 8; i++ {
-		txs = append(txs, node.TransferTx(node.Funded[0], 0, map[string]string{node.Account(i): "9000"}, fmt.Sprintf("fund%d", i)))
+		amt := "9000"
+		if i == 7 {
+			amt = "0.0031" // a poor account: enough for the flat fee and a tiny gas limit, not for a real gas bill
+		}
+		txs = append(txs, node.TransferTx(node.Funded[0], 0, map[string]string{node.Account(i): amt}, fmt.Sprintf("fund%d", i)))
 	}
 	progs := []int{0, 1, 2, 3, 4, 5}
 	var creates []*types.Transaction
